@@ -393,7 +393,51 @@ _ADDED7 = {
     "C20": " (W2, W3) registered here too; (T11) between the result of generateInWatchMode and the Watcher.Add of its elements stand only nil/emptiness tests of the result and tests of "
            "the single directory (fix 5d27e53: with one import the directory was never watched).",
 }
-for _src in (_ADDED, _ADDED3, _ADDED4, _ADDED5, _ADDED6, _ADDED7):
+# Clauses added after the bug hunt on the unchanged tree and the eighth round of seeded changes.
+_ADDED8 = {
+    "C01": " (PD1) a Python serializer built on a datetime64/timedelta64 dtype constant refers to no dtype constant of the other kind (fix aea79ca); (TS3) a Python record is copied as raw memory "
+           "only when its aligned dtype has no padding (fix 8d7b713).",
+    "C02": " (RS1) a printed C++ `if (...) {` whose body assigns a field of the out-parameter is closed by `} else {` on every path of the generator (fix 426e174: an absent NDJSON field kept "
+           "the previous stream item's value); (P4j) the aborts of ndjsoncommon are defaults of exhaustive switches or audited; (TG1) the tag printed for a union case is the case's Tag "
+           "field; (EN2) the integer fallback of an enum is cast to its underlying_type.",
+    "C03": " (PD1) see C01; (TG1, EN2) see C02.",
+    "C05": " (RS1) see C02 (fix 138ca61: version conversions of optionals/unions left the previous item in the reused target).",
+    "C07": " (SW2) every printed declaration of the C++ protocol state uses a type of at least 32 bits (fix 17b7ecb).",
+    "C08": " (AL1, AL2) back-end type switches that treat records or primitives specially resolve aliases first (fixes cf2d86e, 3bae236); (P4j) see C02 — one known finding: an alias of a "
+           "union used as a union case makes GetJsonDataType abort.",
+    "C09": " (VS2) TypeDefinitionsEqual compares namespaces with names.",
+    "C10": " (P4j) see C02/C08.",
+    "C11": " (P4j) see C02/C08 (the abort strikes after part of the output was written).",
+    "C14": " (TG1, EN2) see C02.",
+    "C17": " (RS1) see C02.",
+    "C18": " (I3) in collectPackages the depth test stands in front of the memo lookup that returns early (fix bc47dce); (VS2) see C09.",
+    "C19": " (SX1) every branch of a back end's dispatch over switch patterns refers to the case's Expression (fix 21f459b); (AL2) see C08.",
+}
+# Clauses added after the ninth round of independently seeded changes.
+_ADDED9 = {
+    "C01": " (PX1) in the Python coded streams the bytes stored/read at the offset, the bytes the method made sure of and the bytes the offset advances by are one quantity on every path; "
+           "(PD2) the integer count of a numpy date/time value is taken only in the serializer's own unit; (PW2) every struct format is a literal starting with `<`; (VL1) the C++ varint "
+           "decoders (fast path, refill path) leave their loops under the same tests.",
+    "C02": " (PF3) the Python FlagsConverter appends a symbol's name only under conditions that imply `symbol != 0 and symbol & remaining == symbol` (evaluated for all 3-bit pairs).",
+    "C03": " (PX1, PD2, PW2, VL1) see C01; (PF3) see C02; (MU1) see C04.",
+    "C04": " (OE1) no numeric value field of a pkg/dsl JSON view carries `omitempty`; (MU1) no back end sorts or reverses a slice that is a field of a definition/type/protocol node of the "
+           "model (or a local aliasing one); (RJ1) raw JSON is emitted only from text that is JSON by construction; (W3) registered here too: a generated file is kept only when its whole "
+           "content equals the new content.",
+    "C05": " (EC1) the name-keyed memo of the evolution analyser is allocated once per predecessor.",
+    "C06": " (EC1) see C05.",
+    "C08": " (V5) registered here too for the topological sort (dependencies-first order of generated code) and the computed-field passes.",
+    "C09": " (SH2) every `<<` has a constant count or a count bounded by the width in the same function; (Q7b) the walk that collects the model files never returns SkipDir/SkipAll and adds "
+           "a file under tests of its name and IsDir only; (E7c) ErrorSink.Add / WarningSink.Add keep their argument on every path.",
+    "C10": " (RJ1) see C04; (SH2) see C09; (V5) registered here too for the topological sort (a pruned visit lets a reference cycle reach the unbounded recursion behind it).",
+    "C11": " (Q7b, E7c) see C09; (V5) registered here too for the evolution analyser.",
+    "C12": " (MU1) see C04; (E7c) see C09: which diagnostics are reported does not depend on arrival order; (Q7b) directory listings come in lexical order or are sorted.",
+    "C13": " (SH2, Q7b) see C09.",
+    "C14": " (PW2, PD2) see C01.",
+    "C15": " (OE1, MU1, W3) see C04.",
+    "C16": " (PX1) see C01; (CB5) now covers every consuming call on the input stream (read, ignore, get, seekg, ...): its outcome is looked at on every path; (VL1) see C01.",
+    "C17": " (PX1) see C01; (S1) registered here too: the guard under which the Python/C++ writers print the end-of-stream marker of the previous stream step is the reference one.",
+}
+for _src in (_ADDED, _ADDED3, _ADDED4, _ADDED5, _ADDED6, _ADDED7, _ADDED8, _ADDED9):
     for _k, _v in _src.items():
         if _k in PROPS:
             PROPS[_k]["explanation"] += _v
